@@ -11,14 +11,33 @@ import json, os
 FILES = ["Base/Prelude.v", "Gen/GenesisCoverage.v", "Model/Genesis.v", "Model/C12Check.v", "Proofs/Genesis.v"]
 
 
+# fingerprints of every module's Init/ExportGenesis functions at the tree this check was last audited against
+# (/repo dd0c813).  A difference is not a failure by itself (the models follow the tree through regenerated
+# flags, the differential run exercises the new code) but makes the run search wider: all restart schedules
+# and both genesis permutations for every history, three more seeds.
+PINNED = {"basket": "0ee40130a090ce53", "collectives": "2d19ac0aa570b27d", "custody": "2c894c3038f9258c", "distributor": "eae25c05aac0d30e",
+          "ethereum": "639550e96362e0f8", "evidence": "22eac5cf2c4918c8", "feeprocessing": "cce79dc848f4d052", "gov": "7578f02e0c2acc9e",
+          "layer2": "73019fd3efb72bae", "multistaking": "58d384bf26cd3e83", "recovery": "d936dd863d66676a", "slashing": "8873ef5ec209dab5",
+          "spending": "b8e7645f8bdec399", "staking": "571bfe9082a83232", "tokens": "c4b578b3a4cb4934", "ubi": "a60b59aa000f4956",
+          "upgrade": "d7ff097070e5adc3"}
+
+
+def changed_genesis_code():
+    import re
+    txt = open(GEN_TABLE()).read()
+    m = re.search(r"Definition genesis_fingerprints.*?\[(.*?)\]\.", txt, re.S)
+    now = dict(re.findall(r'\("([^"]+)", "([^"]+)"\)', m.group(1))) if m else {}
+    return sorted(k for k in set(now) | set(PINNED) if now.get(k) != PINNED.get(k))
+
+
 def GEN_TABLE():
     import vlib
     return os.path.join(vlib.COQ, "Gen", "GenesisCoverage.v")
 
 
-def observe(R, n, seed=None):
+def observe(R, n, seed=None, all_schedules=False):
     env = {"VERIF_SEED": str(seed)} if seed is not None else None
-    out = R.harness("c12", ["-n", n], env=env, outdir=os.path.join(R.work, "c12_%s" % (seed if seed is not None else "main")))
+    out = R.harness("c12", ["-n", n] + (["-all-schedules"] if all_schedules else []), env=env, outdir=os.path.join(R.work, "c12_%s" % (seed if seed is not None else "main")))
     if not out:
         return None
     res = R.coq_cases(out, label="C12 correspondence")
@@ -87,6 +106,10 @@ def run(R):
     R.audit()
     if R.tier == "thorough" and hasattr(R, "coqchk"):
         R.coqchk()
+    changed = changed_genesis_code()
+    R.coverage["genesis_code_changed_since_audit"] = changed
+    if changed:
+        R.note("Init/ExportGenesis code changed since the audited tree in: %s -> wider search" % changed)
     n = 80 if R.tier == "quick" else 600
     seen = set()
     total = 0
@@ -119,11 +142,11 @@ def run(R):
         R.coverage.update({"traces_validated_against_impl": total,
                            "input_distribution": {k: v for k, v in dist.items() if k.startswith("step:")},
                            "observed_diff_classes": {k[5:]: v for k, v in dist.items() if k.startswith("diff:")}})
-    # a broken proof / translator / correspondence obligation: widen the search for a concrete failing input
-    if R.broken:
+    # a broken proof / translator / correspondence obligation, or changed genesis code: widen the search
+    if R.broken or (changed and R.tier == "quick"):
         before = len(R.violations)
         for s in range(100, 103):
-            o2 = observe(R, 150, seed=R.seed + s)
+            o2 = observe(R, 150 if R.broken else 60, seed=R.seed + s, all_schedules=True)
             if o2:
                 _, _, viol2, t2, cases2 = o2
                 total += t2
